@@ -43,12 +43,16 @@ def outcome(p, v):
         pname = "pv.dl"
         with open(os.path.join(D, pname), "w") as f:
             f.write(v["textfn"](t))
+    if v.get("pre") is not None:
+        r = runner.run_souffle(souffle, D, args=list(v["pre"]), outdir="vpre", timeout=120, prog=pname)
+        if runner.crash_key(r) is not None or r.rc != 0:
+            return "pre:crash:" + (runner.crash_key(r) or "error-exit")
     r = runner.run_souffle(souffle, D, args=list(v.get("args", ())), env_extra=v.get("env", {}), outdir="v", timeout=60, prog=pname)
     ck = runner.crash_key(r)
     if ck is not None:
         return "crash:" + ck
     if r.rc != 0:
-        return "error-exit"
+        return "error-exit" + (":" + v["errkey"](r.err) if v.get("errkey") else "")
     outs, pr = runner.read_outputs(D, p, outdir="v")
     if pr:
         return "output"
